@@ -283,6 +283,12 @@ impl Ord for OperationTimeoutRecord {
     }
 }
 
+#[cfg(feature = "verif")]
+impl OperationTimeoutRecord {
+    pub(crate) fn id_for_verif(&self) -> u64 { self.id }
+    pub(crate) fn timeout_for_verif(&self) -> Instant { self.timeout }
+}
+
 // Primary data structure that tracks MQTT-related state for the containing client.
 pub(crate) struct ProtocolState {
     pub(crate) config: ProtocolStateConfig,
